@@ -3,7 +3,7 @@
 # observations hold (suite passes with it, demo fails with it, demo passes without it), stores it under /verif/seeded/.
 set -u
 id=$1; x=$2
-src=/tmp/seeded/$id/$x
+src=${SEEDSRC:-/tmp/seeded}/$id/$x
 export GOFLAGS=-mod=mod GOPROXY=off GOSUMDB=off GOTOOLCHAIN=local
 wt=$(mktemp -d /tmp/confirm.XXXXXX)
 git -C /repo worktree add -q --detach "$wt" HEAD || exit 2
@@ -31,7 +31,7 @@ cp "$demo" "$dir/zz_seeded_demo_test.go"
 if (cd $dir && go test -vet=off -count=1 -timeout 120s . > "$wt/with.log" 2>&1); then echo "$id/$x: demo PASSES with the change (not a demonstration)"; exit 1; fi
 git checkout -q -- . 
 if ! (cd $dir && go test -vet=off -count=1 -timeout 120s . > "$wt/without.log" 2>&1); then echo "$id/$x: demo FAILS without the change"; tail -5 "$wt/without.log"; exit 1; fi
-out=/verif/seeded/$id-$x
+out=/verif/seeded/$id-${SEEDTAG:-}$x
 mkdir -p "$out"
 cp "$src/patch.diff" "$out/patch.diff"
 cp "$demo" "$out/$(basename $demo)"
